@@ -737,6 +737,7 @@ pub fn run(rep: &mut Report, thorough: bool, release: bool) {
     rep.rule = "live dumps in watchdogged worker subprocesses (RLIMIT_CPU 20 s, RLIMIT_AS 6 GiB, 90 s wall watchdog) of targets that map hostile linker chains (18 variants), corrupted ELF files under hostile names, /dev/shm files (inotify IN_OPEN monitor), a short /SYSV-like file name, hostile thread names; targets whose thread-group leader has exited (the stop poll can never succeed) under stop timeouts of 0 us .. 30 ms; direct auxv extremes; crash registers drawn from {0,1,7,MAX-k,top of user space,vsyscall,every mapping bound +-1}; random option sets. Plus pure entry points (path/version derivation over generated names, get_stack_info over generated layouts) in-process. Outcome classes: ok/err fine; panic, abort, CPU limit, wall timeout are violations. distinct = hash(option set); non-trivial = every case".into();
     run_live(rep, thorough, release);
     unstoppable_leader(rep, thorough, release);
+    killed_while_stopping(rep, thorough, release);
     if !release {
         run_memory_images(rep, thorough);
         run_pure(rep, if thorough { 400_000 } else { 40_000 });
@@ -880,4 +881,66 @@ fn unstoppable_leader(rep: &mut Report, thorough: bool, release: bool) {
         }
     }
     rep.require("worker_runs[unstoppable-leader]", 4);
+}
+
+
+// ---------------------------------------------------------------------------------------------
+// (h) the target is killed and reaped while the writer waits for it to stop
+// ---------------------------------------------------------------------------------------------
+
+/// The thread-group leader is blocked uninterruptibly (parent of a vfork-style child), so the
+/// writer's SIGSTOP cannot take effect for a while; in that window the target is SIGKILLed and
+/// reaped (what an OOM killer or a supervisor's watchdog does to a crashing process). Its /proc
+/// entries vanish under the writer's feet. The dump must still return - with an error - in bounded time.
+fn killed_while_stopping(rep: &mut Report, thorough: bool, release: bool) {
+    let mut rng = Rng::new(rep.seed.wrapping_mul(88_007));
+    for k in 0..(if thorough { 12 } else { 3 }) {
+        let mut b = Builder::new();
+        b.sentinel(&mut rng, Mode::Pause, &StackShape::default(), None, None);
+        b.spec.leader_vfork_ms = Some(400);
+        let mut t = match Target::spawn(b.spec.clone(), &b.opts) {
+            Ok(t) => t,
+            Err(e) => {
+                rep.inconclusive(format!("vfork-leader target did not start: {e}"));
+                continue;
+            }
+        };
+        let mut o = DumpOpts::new(t.pid, t.pid);
+        o.stop_timeout_ms = Some(20_000);
+        let pid = t.pid;
+        let worker = std::thread::spawn(move || run_worker_wall(&o, release, 30));
+        // wait until the writer's SIGSTOP is pending on the process, then kill and reap the target
+        let t0 = std::time::Instant::now();
+        let mut seen = false;
+        while t0.elapsed().as_secs() < 15 {
+            let st = std::fs::read_to_string(format!("/proc/{pid}/status")).unwrap_or_default();
+            let pending = |key: &str| st.lines().find(|l| l.starts_with(key)).and_then(|l| u64::from_str_radix(l[key.len()..].trim(), 16).ok()).unwrap_or(0);
+            if (pending("ShdPnd:") | pending("SigPnd:")) & (1 << (libc::SIGSTOP - 1)) != 0 {
+                seen = true;
+                break;
+            }
+            std::thread::sleep(std::time::Duration::from_micros(200));
+        }
+        if k % 2 == 1 {
+            std::thread::sleep(std::time::Duration::from_millis(3));
+        }
+        t.kill(); // SIGKILL + reap: /proc/<pid> is gone afterwards
+        let r = worker.join().unwrap_or(WorkerOutcome::Harness("worker thread panicked".into()));
+        rep.case(fnv(format!("killed-while-stopping/{k}").as_bytes()), true);
+        if seen {
+            rep.count("worker_runs[killed-while-stopping]", 1);
+        } else {
+            rep.count("worker_runs[killed-while-stopping, stop not caught pending]", 1);
+        }
+        match &r {
+            WorkerOutcome::Ok => rep.count("outcome_ok", 1),
+            WorkerOutcome::Err(_) => rep.count("outcome_err", 1),
+            WorkerOutcome::Harness(e) => rep.inconclusive(format!("worker harness error: {e}")),
+            _ => {}
+        }
+        if let Some(sig) = classify(&r) {
+            rep.violation(&sig, json!({"category": "killed-while-stopping", "case": format!("leader blocked in a vfork-style wait, SIGKILL + reap {} the writer's SIGSTOP was pending", if seen { "while" } else { "although it was not seen that" }), "outcome": format!("{r:?}"), "profile": if release { "release" } else { "debug" }}));
+        }
+    }
+    rep.require("worker_runs[killed-while-stopping]", 1);
 }
